@@ -950,9 +950,22 @@ class Node():
         :raises TypeError: if the given children parameter is not a list.
         '''
         if isinstance(my_children, list):
-            self.pop_all_children()  # First remove existing children if any
-            self._children = ChildrenList(self, self._validate_child,
-                                          self._children_valid_format)
+            # Take a copy in case we've been given our own ChildrenList
+            my_children = list(my_children)
+            new_children = ChildrenList(self, self._validate_child,
+                                        self._children_valid_format)
+            # Validate the new list before removing the existing children
+            # so that a refused assignment leaves this node unchanged.
+            # pylint: disable=protected-access
+            for position, item in enumerate(my_children):
+                new_children._validate_item(position, item)
+                if item.parent is not self:
+                    # (Existing children of this node will be orphans once
+                    # they have been removed.)
+                    new_children._check_is_orphan(item)
+            # pylint: enable=protected-access
+            self.pop_all_children()  # Remove existing children if any
+            self._children = new_children
             self._children.extend(my_children)
         else:
             raise TypeError("The 'my_children' parameter of the node.children"
